@@ -347,7 +347,8 @@ func (conn *Conn) read(ctx *Context, async bool) {
 		if ctx.Error == shutdownMsg {
 			call.Error = ErrShutdown
 		} else {
-			call.Error = errors.New(ctx.Error)
+			// ctx.Error aliases the pooled read buffer, which is reused below.
+			call.Error = errors.New(string(append([]byte(nil), ctx.Error...)))
 		}
 		err = conn.codec.ReadResponseBody(nil, nil)
 		if err != nil {
